@@ -346,6 +346,17 @@ var c11Injectors = []c11Injector{
 		ms.Mods = append(ms.Mods, s1, s2)
 		return true
 	}},
+	{"list-key-names-no-leaf", false, func(r *core.Rng, ms *yang.ModSet) bool {
+		switch r.Intn(3) {
+		case 0:
+			addBody(modA(ms), yang.S("list", "nokey-list", yang.S("key", "zz"), yang.S("leaf", "x", yang.S("type", "string"))))
+		case 1:
+			addBody(modA(ms), yang.S("list", "nokey-list", yang.S("key", "x zz"), yang.S("leaf", "x", yang.S("type", "string"))))
+		default:
+			addBody(modA(ms), yang.S("list", "nokey-list", yang.S("key", "c"), yang.S("container", "c", yang.S("leaf", "x", yang.S("type", "string")))))
+		}
+		return true
+	}},
 	{"unknown-prefix-in-type", false, func(r *core.Rng, ms *yang.ModSet) bool {
 		addBody(modA(ms), yang.S("leaf", "dl", yang.S("type", "nopfx:t")))
 		return true
